@@ -9,6 +9,7 @@ package main
 import (
 	"fmt"
 	"math"
+	"os"
 	"strings"
 	"sync"
 )
@@ -2249,8 +2250,13 @@ func GenProgram(rng *Rng, prof Profile) *Prog {
 			return p
 		}
 		if err := Check(p, prof.checkOpts()); err != nil {
+			// a generator slip (e.g. a let whose only use was dropped by a later rewrite) must not take the
+			// check down: the program is discarded and counted; every program that is used has passed Check
 			genStat(func(s *GenStatsT) { s.CheckFailed++ })
-			panic("generator produced an ill-formed program: " + err.Error() + "\n" + p.ToSexp())
+			if os.Getenv("VH_GEN_STRICT") != "" {
+				panic("generator produced an ill-formed program: " + err.Error() + "\n" + p.ToSexp())
+			}
+			continue
 		}
 		if prof.Hazard == "" {
 			if c := PapClass(p); c == "effect" {
